@@ -38,19 +38,9 @@ __CPROVER_requires(VF_INI_OUT(sect_name_size))
 __CPROVER_assigns(sect_off != NULL: *sect_off)
 __CPROVER_assigns(sect_name != NULL: *sect_name)
 __CPROVER_assigns(sect_name_size != NULL: *sect_name_size)
-__CPROVER_ensures(__CPROVER_return_value == 0 || __CPROVER_return_value == EINVAL ||
-    __CPROVER_return_value == ENOENT)
-__CPROVER_ensures((ini == NULL || sect_off == NULL) == (__CPROVER_return_value == EINVAL))
-/* yields the next section line in file order, ENOENT iff there is none */
-__CPROVER_ensures((ini != NULL && sect_off != NULL) ==>
-    ((__CPROVER_return_value == 0) ==
-     (vf_ini_spec_sect_next(ini, VF_INI_NORM(ini, __CPROVER_old(*sect_off))) != INI_OFFSET_INVALID)))
-__CPROVER_ensures(__CPROVER_return_value == 0 ==>
-    *sect_off == vf_ini_spec_sect_next(ini, VF_INI_NORM(ini, __CPROVER_old(*sect_off))))
-__CPROVER_ensures((__CPROVER_return_value == 0 && sect_name != NULL) ==>
-    *sect_name == ini->lines[*sect_off]->name)
-__CPROVER_ensures((__CPROVER_return_value == 0 && sect_name_size != NULL) ==>
-    *sect_name_size == ini->lines[*sect_off]->name_size)
+/* yields the next section line in file order, ENOENT iff there is none, EINVAL iff NULL */
+__CPROVER_ensures(vf_ini_post_sect_enum(ini, __CPROVER_old(*sect_off),
+    __CPROVER_return_value, sect_off, sect_name, sect_name_size))
 ;
 
 int
@@ -68,23 +58,9 @@ __CPROVER_assigns(val_name != NULL: *val_name)
 __CPROVER_assigns(val_name_size != NULL: *val_name_size)
 __CPROVER_assigns(val != NULL: *val)
 __CPROVER_assigns(val_size != NULL: *val_size)
-__CPROVER_ensures(__CPROVER_return_value == 0 || __CPROVER_return_value == EINVAL ||
-    __CPROVER_return_value == ENOENT)
-__CPROVER_ensures((ini == NULL || val_off == NULL) == (__CPROVER_return_value == EINVAL))
 /* next value line of the section in file order, never beyond the next section line */
-__CPROVER_ensures((ini != NULL && val_off != NULL) ==>
-    ((__CPROVER_return_value == 0) ==
-     (vf_ini_spec_val_next(ini, sect_off, __CPROVER_old(*val_off)) != INI_OFFSET_INVALID)))
-__CPROVER_ensures(__CPROVER_return_value == 0 ==>
-    *val_off == vf_ini_spec_val_next(ini, sect_off, __CPROVER_old(*val_off)))
-__CPROVER_ensures((__CPROVER_return_value == 0 && val_name != NULL) ==>
-    *val_name == ini->lines[*val_off]->name)
-__CPROVER_ensures((__CPROVER_return_value == 0 && val_name_size != NULL) ==>
-    *val_name_size == ini->lines[*val_off]->name_size)
-__CPROVER_ensures((__CPROVER_return_value == 0 && val != NULL) ==>
-    *val == ini->lines[*val_off]->val)
-__CPROVER_ensures((__CPROVER_return_value == 0 && val_size != NULL) ==>
-    *val_size == ini->lines[*val_off]->val_size)
+__CPROVER_ensures(vf_ini_post_val_enum(ini, sect_off, __CPROVER_old(*val_off),
+    __CPROVER_return_value, val_off, val_name, val_name_size, val, val_size))
 ;
 
 /* --------------------------------------------------------------------- lookup ---- */
@@ -94,9 +70,8 @@ __CPROVER_requires(ini == NULL || vf_ini_wf(ini))				\
 __CPROVER_requires(VF_INI_NAME_SPAN(sect_name, sect_name_size))			\
 __CPROVER_assigns()								\
 /* the FIRST section line with that name; INI_OFFSET_INVALID iff there is none */ \
-__CPROVER_ensures(ini == NULL ==> __CPROVER_return_value == INI_OFFSET_INVALID)	\
-__CPROVER_ensures(ini != NULL ==> __CPROVER_return_value ==			\
-    vf_ini_spec_sect_find(ini, sect_name, sect_name_size, (icase)))		\
+__CPROVER_ensures(__CPROVER_return_value == (ini == NULL ? INI_OFFSET_INVALID :	\
+    vf_ini_spec_sect_find(ini, sect_name, sect_name_size, (icase))))		\
 ;
 VF_INI_SECT_FIND_CONTRACT(ini_sect_find, 0)
 VF_INI_SECT_FIND_CONTRACT(ini_sect_findi, 1)
@@ -108,12 +83,10 @@ __CPROVER_requires(ini == NULL || vf_ini_wf(ini))				\
 __CPROVER_requires(val_name == NULL || val_name_size == 0 ||			\
     VF_INI_VNAME_SPAN(val_name, val_name_size))					\
 __CPROVER_assigns()								\
-__CPROVER_ensures((ini == NULL || val_name == NULL || val_name_size == 0) ==>	\
-    __CPROVER_return_value == INI_OFFSET_INVALID)				\
 /* the FIRST value line of that section with that name, not beyond the next section */ \
-__CPROVER_ensures((ini != NULL && val_name != NULL && val_name_size != 0) ==>	\
-    __CPROVER_return_value ==							\
-    vf_ini_spec_val_find(ini, sect_off, val_name, val_name_size, (icase)))	\
+__CPROVER_ensures(__CPROVER_return_value ==					\
+    ((ini == NULL || val_name == NULL || val_name_size == 0) ? INI_OFFSET_INVALID : \
+     vf_ini_spec_val_find(ini, sect_off, val_name, val_name_size, (icase))))	\
 ;
 VF_INI_VAL_FIND_CONTRACT(ini_sect_val_find, 0)
 VF_INI_VAL_FIND_CONTRACT(ini_sect_val_findi, 1)
@@ -130,23 +103,51 @@ __CPROVER_requires(VF_INI_OUT(val))						\
 __CPROVER_requires(VF_INI_OUT(val_size))					\
 __CPROVER_assigns(val != NULL: *val)						\
 __CPROVER_assigns(val_size != NULL: *val_size)					\
-__CPROVER_ensures(__CPROVER_return_value == 0 || __CPROVER_return_value == EINVAL || \
-    __CPROVER_return_value == ENOENT)						\
-__CPROVER_ensures((ini == NULL || val == NULL || val_size == NULL) ==		\
-    (__CPROVER_return_value == EINVAL))						\
-/* ordered map: the value of the first matching line of the first matching section */ \
-__CPROVER_ensures((ini != NULL && val != NULL && val_size != NULL) ==>		\
-    ((__CPROVER_return_value == ENOENT) ==					\
-     (vf_ini_spec_lookup(ini, sect_name, sect_name_size, val_name, val_name_size, \
-      (icase)) == INI_OFFSET_INVALID)))						\
-__CPROVER_ensures(__CPROVER_return_value == 0 ==>				\
-    (*val == ini->lines[vf_ini_spec_lookup(ini, sect_name, sect_name_size,	\
-	val_name, val_name_size, (icase))]->val &&				\
-     *val_size == ini->lines[vf_ini_spec_lookup(ini, sect_name, sect_name_size,	\
-	val_name, val_name_size, (icase))]->val_size))				\
+/* ordered map: the value of the first matching line of the first matching section; \
+ * ENOENT iff there is none; EINVAL iff a NULL argument */			\
+__CPROVER_ensures(vf_ini_post_val_get(ini, sect_name, sect_name_size,		\
+    val_name, val_name_size, (icase), __CPROVER_return_value, val, val_size))	\
 ;
 VF_INI_VAL_GET_CONTRACT(ini_val_get, 0)
 VF_INI_VAL_GET_CONTRACT(ini_vali_get, 1)
+
+/* -------------------------------------------------------------- serialisation ---- */
+int
+ini_buf_calc_size(const ini_p ini, size_t *file_size)
+__CPROVER_requires(ini == NULL || vf_ini_wf(ini))
+__CPROVER_requires(VF_INI_OUT(file_size))
+__CPROVER_assigns(file_size != NULL: *file_size)
+/* equals the number of bytes generation writes */
+__CPROVER_ensures(vf_ini_post_calc_size(ini, __CPROVER_return_value, file_size))
+;
+
+int
+ini_buf_gen(const ini_p ini, uint8_t *buf, const size_t buf_size, size_t *buf_size_ret)
+__CPROVER_requires(ini == NULL || vf_ini_wf(ini))
+/* destination: exactly buf_size bytes */
+__CPROVER_requires(buf == NULL || (__CPROVER_w_ok(buf, buf_size) &&
+    __CPROVER_POINTER_OFFSET(buf) == 0 && __CPROVER_OBJECT_SIZE(buf) == buf_size))
+__CPROVER_requires(VF_INI_OUT(buf_size_ret))
+__CPROVER_assigns(buf != NULL && buf_size != 0: __CPROVER_object_upto(buf, buf_size))
+__CPROVER_assigns(buf_size_ret != NULL: *buf_size_ret)
+/* ghost position vf_ini_gk/gj (specs/ini_spec.h) stands for every byte of the text */
+__CPROVER_ensures(vf_ini_post_gen(ini, buf, buf_size, __CPROVER_return_value,
+    buf_size_ret))
+;
+
+/* -------------------------------------------------------------------- parsing ---- */
+int
+ini_buf_parse(const ini_p ini, const uint8_t *buf, const size_t buf_size)
+__CPROVER_requires(ini != NULL && vf_ini_wf(ini))
+/* text: exactly buf_size bytes */
+__CPROVER_requires(buf == NULL || (__CPROVER_r_ok(buf, buf_size) &&
+    __CPROVER_POINTER_OFFSET(buf) == 0 && __CPROVER_OBJECT_SIZE(buf) == buf_size))
+__CPROVER_assigns(ini->lines, ini->lines_count, ini->lines_allocated)
+__CPROVER_assigns(ini->lines != NULL: __CPROVER_object_whole(ini->lines))
+__CPROVER_frees(ini->lines)
+__CPROVER_ensures(vf_ini_post_parse(ini, __CPROVER_old(ini->lines_count), buf, buf_size,
+    __CPROVER_return_value))
+;
 
 #endif /* !VF_REPLAY */
 #endif
